@@ -550,6 +550,12 @@ def run_cmp_case(c):
         feats["result"] = "ZeroDivisionError"
     except Exception as e:
         py_fail = f"unexpected exception {type(e).__name__}: {e}"
+    if py_fail is None:
+        try:
+            E.check_pool("an operator that raised")
+        except OperandChanged as e:
+            py_fail = "an operand was modified by an operator that raised: " + str(e)
+            feats = {"operand_modified_by_raising_operator": True, "kind": "cmp"}
     if E.flags.get("failed_inplace_modified_receiver"):
         return {"coq": None, "py_fail": "a failing in-place operator modified its receiver: " + E.flags["failed_inplace_modified_receiver"],
                 "features": dict(feats, failed_inplace_modified_receiver=True), "nontrivial": True}
@@ -665,6 +671,13 @@ def run_case(c):
         py_fail = f"unexpected exception {type(e).__name__}: {e}"
         feats["result"] = "other"
         o = None
+    if py_fail is None:
+        # operands must be intact after a RAISING operator as well
+        try:
+            E.check_pool("an operator that raised")
+        except OperandChanged as e:
+            py_fail = "an operand was modified by an operator that raised: " + str(e)
+            feats = {"operand_modified_by_raising_operator": True, "root": c["tree"]["op"]}
     if E.flags.get("failed_inplace_modified_receiver"):
         py_fail = "a failing in-place operator modified its receiver: " + E.flags["failed_inplace_modified_receiver"]
         return {"coq": None, "py_fail": py_fail, "features": dict(feats, failed_inplace_modified_receiver=True), "nontrivial": True}
